@@ -158,11 +158,14 @@ PLAN = {
     ),
     "C14": dict(
         title="Reshaping and flattening preserve the row-major element sequence",
-        level="model_checking",
-        verus=[],
+        level="proof",
+        verus=["C14_reshape.rs"],
         kani=True,
-        undecided_clauses=["shapes beyond the listed small ones (bounded harnesses on concrete shapes with symbolic contents)",
-                           "get_flat / 3-D -> 3-D reshape of 3-D tensors run only in the thorough tier (nested flat_map needs many minutes of symbolic execution)"],
+        undecided_clauses=["inputs are assumed well formed (recorded shape = shape of the rectangular data, spatial extents >= 1, element count below 2^62) and the requested "
+                           "element count must fit the machine word; empty tensors are not claimed",
+                           "the iterator forms of get_flat (`flat_map` chain), get_triple / reshape (stateful `iter.next()` inside nested range maps) and flatten (`extend`) are "
+                           "rewritten mechanically to index loops (R36-R39): adapter order assumed; the bounded Kani harnesses run the real adapters on concrete small shapes",
+                           "only the flat and 3-D ranks the property names (2-D / 4-D tensors are not reshaped by the code)"],
     ),
     "C15": dict(
         title="Element-wise tensor arithmetic is exact, rank-generic and shape-checked",
@@ -368,13 +371,14 @@ MANIFEST_TEXT = {
         note="bounded in epochs/tolerance; the dropped batch loop and print blocks are assumed not to interfere (syntactic scan); validate() is an oracle.",
     ),
     "C14": dict(
-        category="model_checking",
-        technique="Kani harnesses on the real flatten / get_flat / get_triple / reshape with concrete small shapes and symbolic contents",
+        category="proof",
+        technique="Verus contracts on the WHOLE flatten / get_flat / get_triple / reshape (iterator forms rewritten mechanically to index loops) + Kani harnesses on the real functions with concrete small shapes",
         design_ref="DESIGN.md §5 C14",
-        text="Bounded: for each listed shape (dimensions of size 1, non-square) and all contents from the exact grid, the real functions keep the "
-             "row-major sequence, the element count and a recorded shape that matches the data; there-and-back is the identity; a reshape to a "
-             "different element count panics (three refusing arms).",
-        note="bounded in shape; should_panic harnesses accept any panic on the path.",
+        text="Proof for every shape: flatten and get_flat return exactly the row-major sequence f[(c*H + h)*W + w] = d[c][h][w] of a rectangular C x H x W tensor (a flat tensor "
+             "is returned as it is); get_triple places flat position (c*H + h)*W + w at cell (c, h, w) of the requested extents; reshape - all four arms - returns a tensor "
+             "whose recorded shape is the requested one and matches its data, with the same row-major sequence as the argument, and refuses (panics) a different element "
+             "count. Bounded (Kani): the real functions, with the real iterator adapters, on concrete small shapes (dimensions of size 1, non-square) with symbolic contents.",
+        note="well-formed inputs assumed (type invariant in the precondition); iterator adapters rewritten (R36-R39, R42-R44) under the assumption that they visit elements in order.",
     ),
     "C15": dict(
         category="proof",
